@@ -187,6 +187,32 @@ example : (match runQuantum loopCode {} 3 { calls := [⟨"main", 0⟩] } with
         | _ => false)
     | _ => false) = true := by decide
 
+/-- The hypotheses of `balanced` are satisfiable by a real loop iteration: from the first visit
+of the loop head (index 3) of `loopCode`, 15 instructions (the loop body with its call of `f`,
+call depth 1 → 2 → 1) lead back to the loop head along a `Path`. -/
+example : ∃ A s₁ s₂, verify loopCode A = true ∧ Path loopCode A {} 1 s₁ s₂
+    ∧ s₁.calls.map (fun f => (f.fn, f.ip)) = [("main", 3)] ∧ s₂.calls.map (fun f => (f.fn, f.ip)) = [("main", 3)]
+    ∧ s₂.steps = s₁.steps + 15 := by
+  have hd : (match pathRun loopCode {} 1 3 { calls := [⟨"main", 0⟩] } with
+      | some s1 =>
+        (match pathRun loopCode {} 1 15 s1 with
+          | some s2 => s1.calls.map (fun f => (f.fn, f.ip)) == [("main", 3)]
+              && s2.calls.map (fun f => (f.fn, f.ip)) == [("main", 3)] && s2.steps == s1.steps + 15
+          | none => false)
+      | none => false) = true := by decide
+  cases h1 : pathRun loopCode {} 1 3 { calls := [⟨"main", 0⟩] } with
+  | none => rw [h1] at hd; cases hd
+  | some s1 =>
+    rw [h1] at hd
+    simp only at hd
+    cases h2 : pathRun loopCode {} 1 15 s1 with
+    | none => rw [h2] at hd; cases hd
+    | some s2 =>
+      rw [h2] at hd
+      simp only [Bool.and_eq_true, beq_iff_eq] at hd
+      exact ⟨(infer loopCode).getD [], s1, s2, by decide,
+        path_of_pathRun (fun s => dynOK_static loopCode _ {} (by decide) s) 15 s1 s2 h2, hd.1.1, hd.1.2, hd.2⟩
+
 /-- The hypotheses of the run theorems are satisfiable: the annotation `infer` computes for
 `loopCode` passes `verify`, and the fresh core that is about to run `main` satisfies `Inv` and
 `MemOK`; hence (by `run_sound_static`) no run of `loopCode` ends in an excluded panic. -/
@@ -202,6 +228,35 @@ example : hcheck [{ name := "main", code := mk [.drop, .ret] }] = false
     ∧ (match run [{ name := "main", code := mk [.drop, .ret] }] {} 5 none 5 { calls := [⟨"main", 0⟩] } with
       | .panic why _ => why == "stack underflow"
       | _ => false) = true := by decide
+
+/-- The statement without the hypothesis `DynOK`: every run of accepted code from a fresh core
+that starts a parameterless function avoids the excluded panics. -/
+def hcheck_run_sound_full : Prop :=
+  ∀ (code : Code), hcheck code = true → ∀ (lim : Limits) (quantum : Nat) (fn : String),
+    (findCode code fn).map paramsOf = some 0 →
+    ∀ fuel why st, run code lim quantum none fuel { calls := [⟨fn, 0⟩] } = .panic why st → ¬ Excluded why
+
+/-- `main` calls the function value `g` with no argument; `g` pops one. Heights alone accept it. -/
+private def arityCode : Code := [
+  { name := "main", code := mk [.addMp 0, .copyPush (.vmFn "g"), .copyPush (.int 0), .callVal, .addMp 0, .ret] },
+  { name := "g", code := mk [.addMp 1, .setVar 0, .addMp (-1), .ret] } ]
+
+/-- **The hypothesis `DynOK` is needed**: a height checker cannot see which function a function
+*value* denotes. `arityCode` is accepted by `hcheck` and panics with "stack underflow". (The Go
+analyzer rejects the source of such code — arity is part of the function type — so this is the
+division of labour between the two checkers, not a defect of the VM.) -/
+theorem hcheck_run_sound_full_counterexample : ¬ hcheck_run_sound_full := by
+  intro hfull
+  have hd : (match run arityCode {} 50 none 5 { calls := [⟨"main", 0⟩] } with
+      | .panic why _ => why == "stack underflow" | _ => false) = true := by decide
+  cases hr : run arityCode {} 50 none 5 { calls := [⟨"main", 0⟩] } with
+  | panic why st =>
+    rw [hr] at hd
+    exact hfull arityCode (by decide) {} 50 "main" (by decide) 5 why st hr (Or.inl (by simpa using hd))
+  | ok s => rw [hr] at hd; cases hd
+  | fatal k m sp s => rw [hr] at hd; cases hd
+  | term s => rw [hr] at hd; cases hd
+  | outOfFuel s => rw [hr] at hd; cases hd
 
 /-- It rejects a loop that grows the stack (one push per iteration). -/
 example : hcheck [{ name := "main", code := mk [.copyPush (.int 1), .jump 0] }] = false := by decide
